@@ -206,6 +206,11 @@ pub(super) trait DialectHandler: Any + Debug {
         false
     }
 
+    /// Whether `OFFSET` is only accepted after a `LIMIT` clause.
+    fn offset_requires_limit(&self) -> bool {
+        false
+    }
+
     /// Get the date format for the given dialect
     /// PRQL uses the same format as `chrono` crate
     /// (see https://docs.rs/chrono/latest/chrono/format/strftime/index.html)
@@ -409,6 +414,11 @@ impl DialectHandler for GlareDbDialect {
 impl DialectHandler for SQLiteDialect {
     fn set_ops_distinct(&self) -> bool {
         false
+    }
+
+    // https://www.sqlite.org/lang_select.html#limitoffset
+    fn offset_requires_limit(&self) -> bool {
+        true
     }
 
     fn except_all(&self) -> bool {
